@@ -121,8 +121,8 @@ def forward_filtering_backward_sampling(
 
         def t_branch(prev, obs):
             alpha = jax.scipy.special.logsumexp(
-                prev + transition_n,
-                axis=-1,
+                prev.reshape(-1, 1) + transition_n,
+                axis=0,
             )
             alpha = obs_n + alpha.reshape(-1, 1)
             alpha = alpha[:, obs]
